@@ -1,5 +1,9 @@
 """Case streams over the generated schema family, evaluated on the model (driver) and on the real loader."""
 import copy
+import os
+import urllib.request
+
+from .sexp import Atom
 
 from . import cfggen, cfgrun, core, schemafam as F
 
@@ -8,11 +12,19 @@ ENV = [["ZCV_HOME", "/h"], ["ZCV_Mixed", "m"]]
 
 
 class Case:
-    __slots__ = ("sd", "real", "elab", "hnames", "lines", "faults", "overrides", "meta", "model", "out", "cfg", "handler")
+    __slots__ = ("sd", "real", "elab", "hnames", "lines", "faults", "overrides", "meta", "model", "out", "cfg", "handler",
+                 "files", "url")
+
+    def __init__(self):
+        self.files = None      # {relative path: [lines]} for %include targets (real files in a scratch tree)
+        self.url = None
+        self.meta = {}
+        self.overrides = ()
+        self.faults = []
 
     def replay(self):
         return {"schema_xml": F.render_xml(self.sd), "lines": self.lines, "overrides": list(self.overrides),
-                "faults": self.faults, "url": URL}
+                "faults": self.faults, "url": self.url or URL, "files": self.files}
 
 
 _schema_cache = {}
@@ -53,27 +65,91 @@ def gen_cases(ctx, n_schemas, n_texts, handlers=False, nfaults=(0, 0, 1, 1, 2, 3
             c.lines = cfggen.render_lines(rng, items, plain=plain)
             c.faults = fl
             c.overrides = ()
-            c.meta = {}
+            c.meta = {"items": items}
             cases.append(c)
     return cases
 
 
+def _scratch_root():
+    import tempfile
+    base = "/dev/shm" if os.path.isdir("/dev/shm") else None
+    return tempfile.mkdtemp(prefix="zcv-", dir=base)
+
+
+def _resolve_table(root_url, main_rel, files, all_lines):
+    """(includer url, argument) -> normalised url, for every %include argument occurring anywhere; computed with the
+    standard library only (urllib), never with ZConfig.url"""
+    import re
+    import urllib.parse
+    urls = {rel: urllib.parse.urljoin(root_url, urllib.request.pathname2url(rel)) for rel in files}
+    urls[main_rel] = urllib.parse.urljoin(root_url, urllib.request.pathname2url(main_rel))
+    args = set()
+    for ls in all_lines:
+        for l in ls:
+            m = re.match(r"\s*%include\s+(\S.*?)\s*$", l)
+            if m:
+                args.add(m.group(1))
+    table = []
+    for rel, u in urls.items():
+        for a in args:
+            if "$" in a:
+                continue
+            j = urllib.parse.urljoin(u, a)
+            d, frag = urllib.parse.urldefrag(j)
+            if frag:
+                table.append([u, a, Atom("fragment")])
+            else:
+                table.append([u, a, [Atom("url"), d]])
+    return urls, table
+
+
 def evaluate(ctx, cases, fresh_schema=False):
     """fills c.model / c.out / c.cfg / c.handler"""
-    import os
+    import shutil
     for k, v in ENV:
         os.environ[k] = v
     os.environ.pop("NOSUCHENV_ZCV", None)
-    if ctx.driver_ok:
-        reqs = [cfgrun.model_load_request(c.elab, c.lines, URL, c.overrides, env=ENV) for c in cases]
-        ans = core.driver_batch(reqs, chunk=5000)
-    else:
-        ans = [None] * len(cases)
-    for c, a in zip(cases, ans):
-        c.model = cfgrun.canon_model(a) if a is not None else None
-        real = F.load_real(c.sd) if fresh_schema else c.real
-        c.out, c.cfg, c.handler = cfgrun.real_load(real, "\n".join(c.lines) + "\n", URL, c.overrides)
-        ctx.evaluations += 1
+    root = None
+    reqs = []
+    plans = []
+    try:
+        for i, c in enumerate(cases):
+            if c.files is None:
+                c.url = URL
+                table = []
+                if any("%include" in l for l in c.lines):
+                    _, table = _resolve_table("file:///zcvroot/", "main.conf", {}, [c.lines])
+                reqs.append(cfgrun.model_load_request(c.elab, c.lines, URL, c.overrides, env=ENV, resolve=table))
+                plans.append(None)
+            else:
+                if root is None:
+                    root = _scratch_root()
+                d = os.path.join(root, "c%d" % i)
+                main_rel = c.meta.get("main", "main.conf")
+                root_url = "file://" + urllib.request.pathname2url(d) + "/"
+                urls, table = _resolve_table(root_url, main_rel, c.files, [c.lines] + list(c.files.values()))
+                for rel, ls in list(c.files.items()) + [(main_rel, c.lines)]:
+                    p = os.path.join(d, rel)
+                    os.makedirs(os.path.dirname(p), exist_ok=True)
+                    with open(p, "w", encoding="utf-8", newline="") as f:
+                        f.write("".join(l + "\n" for l in ls))
+                c.url = urls[main_rel]
+                res = [[urls[rel], ls] for rel, ls in c.files.items()]
+                reqs.append(cfgrun.model_load_request(c.elab, c.lines, c.url, c.overrides, env=ENV,
+                                                      resources=res, resolve=table))
+                plans.append(os.path.join(d, main_rel))
+        ans = core.driver_batch(reqs, chunk=5000) if ctx.driver_ok else [None] * len(cases)
+        for c, a, plan in zip(cases, ans, plans):
+            c.model = cfgrun.canon_model(a) if a is not None else None
+            real = F.load_real(c.sd) if fresh_schema else c.real
+            if plan is None:
+                c.out, c.cfg, c.handler = cfgrun.real_load(real, "\n".join(c.lines) + "\n", URL, c.overrides)
+            else:
+                c.out, c.cfg, c.handler = cfgrun.real_load_path(real, plan, c.overrides)
+            ctx.evaluations += 1
+    finally:
+        if root is not None:
+            shutil.rmtree(root, ignore_errors=True)
     return cases
 
 
@@ -86,7 +162,7 @@ def shrink_lines(ctx, c, still_fails):
         for ls in cands:
             d = Case()
             d.sd, d.real, d.elab, d.hnames = c.sd, c.real, c.elab, c.hnames
-            d.lines, d.faults, d.overrides, d.meta = ls, c.faults, c.overrides, c.meta
+            d.lines, d.faults, d.overrides, d.meta, d.files = ls, c.faults, c.overrides, c.meta, c.files
             cs.append(d)
         evaluate(ctx, cs)
         return still_fails(cs)
